@@ -679,6 +679,143 @@ def model_requests(case):
     return lines, index
 
 
+# ---------------------------------------------------------------------------------------------
+# NaN coordinates: what `==` and `hash` do (IEEE comparison; model `Grid.eqNaN`, theorem `eq_refl_iff_no_nan`)
+
+def gen_nan_case(rng):
+    import copy as _copy
+    specs = []
+    first = G.gen_spec(rng, maxn=4)
+    for k in range(int(rng.integers(1, 4))):
+        spec = _copy.deepcopy(first) if (k > 0 and rng.random() < 0.6) else G.gen_spec(rng, maxn=4)
+        spec['nan'] = []
+        if rng.random() < 0.6:
+            for _ in range(int(rng.integers(1, 3))):
+                if spec['kind'] == 'reg':
+                    a = int(rng.choice([0, 2]))
+                else:
+                    a = int(rng.integers(0, len(spec['data'])))
+                spec['nan'].append([a, int(rng.integers(0, len(spec['data'][a])))])
+        specs.append(spec)
+    ops = []
+    n = len(specs)
+    for _ in range(int(rng.integers(1, 5))):
+        i = int(rng.integers(0, n))
+        op = str(rng.choice(['copy', 'dict', 'pickle', 'reversed', 'shifted', 'shift']))
+        if op in ('shift', 'shifted'):
+            ops.append([op, i, float(rng.choice([0.0, 0.5, -1.0]))])
+        else:
+            ops.append([op, i])
+        if op != 'shift':
+            n += 1
+    return {'family': 'nan', 'specs': specs, 'ops': ops}
+
+
+def nan_real_spec(spec, nan):
+    import copy as _copy
+    r = _copy.deepcopy(spec)
+    for a, e in spec['nan']:
+        r['data'][a][e] = nan
+    return r
+
+
+def run_nan_real(case):
+    """the real grids of a NaN case: (has-NaN flags, polar flags, == matrix, hashes, source of each copy) or None if an op raised"""
+    import warnings
+    grids, flags, src = [], [], []
+    with warnings.catch_warnings():
+        warnings.simplefilter('ignore')
+        for spec in case['specs']:
+            grids.append(G.build(nan_real_spec(spec, float('nan'))))
+            flags.append(bool(spec['nan']))
+            src.append(None)
+        done = []
+        for op in case['ops']:
+            g = grids[op[1]]
+            if op[0] == 'shifted' and g._coordinate_system != 'cartesian':
+                op = ['copy', op[1]]        # a polar shift goes through a conversion (C11): here a plain copy instead
+            try:
+                if op[0] in ('copy', 'dict', 'pickle'):
+                    grids.append(G.roundtrip(g, op[0]))
+                    src.append(op[1])
+                elif op[0] == 'reversed':
+                    grids.append(g.reversed())
+                    src.append(None)
+                elif op[0] == 'shifted':
+                    grids.append(g.shifted(op[2]))
+                    src.append(None)
+                else:
+                    if g._coordinate_system != 'cartesian':
+                        continue
+                    g.shift(op[2])
+                    src = [None if (k == op[1] or v == op[1]) else v for k, v in enumerate(src)]
+            except Exception as e:  # noqa
+                return {'error': '%s raised %s' % (op[0], type(e).__name__)}
+            done.append(op)
+            if op[0] != 'shift':
+                flags.append(flags[op[1]])
+        n = len(grids)
+        eq = [[None] * n for _ in range(n)]
+        for i in range(n):
+            for j in range(n):
+                try:
+                    eq[i][j] = bool(grids[i] == grids[j])
+                except Exception as e:  # noqa
+                    eq[i][j] = 'err:' + G.errkind(e)
+        hashes = [G.safe_hash(g) for g in grids]
+        snaps = [G.snap(g) for g in grids]
+    return {'flags': flags, 'eq': eq, 'hash': hashes, 'src': src, 'done': done, 'snaps': snaps}
+
+
+def nan_oracle(obs):
+    bad = []
+    if 'error' in obs:
+        return [('nan-op-raises', 'on a grid with NaN coordinates ' + obs['error'])]
+    n = len(obs['flags'])
+    for i in range(n):
+        if obs['hash'][i][0] != 'ok':
+            bad.append(('hash-raises', 'hash(grid) raised %s for a grid with NaN coordinates' % obs['hash'][i][1]))
+        if obs['src'][i] is not None and obs['hash'][i] != obs['hash'][obs['src'][i]]:
+            bad.append(('nan-copy-hash', 'a copy of a grid with NaN coordinates has another hash'))
+        for j in range(n):
+            if obs['eq'][i][j] is not obs['eq'][j][i]:
+                bad.append(('eq-symm', 'g%d == g%d is %s but g%d == g%d is %s (NaN coordinates)' % (i, j, obs['eq'][i][j], j, i, obs['eq'][j][i])))
+            if not obs['flags'][i] and not obs['flags'][j]:
+                want = G.ident(obs['snaps'][i]) == G.ident(obs['snaps'][j])
+                if obs['eq'][i][j] is not want:
+                    bad.append(('eq-identical' if want else 'eq-differ', 'NaN-free grids in a NaN case: == is %s, identity %s' % (obs['eq'][i][j], want)))
+    return bad
+
+
+def nan_model_lines(case, done):
+    lines = ['C10 reset']
+    nds = []
+    for spec in case['specs']:
+        lines.append(G.new_line('C10', nan_real_spec(spec, 0.0)))
+        nds.append(spec_ndim(spec))
+    for op in done:
+        if op[0] in ('copy', 'dict', 'pickle'):
+            lines.append('C10 copy %d' % op[1])
+        elif op[0] == 'reversed':
+            lines.append('C10 reversed %d' % op[1])
+        else:
+            lines.append('C10 %s %d %s' % (op[0], op[1], rat_list([op[2]] * nds[op[1]])))
+        if op[0] != 'shift':
+            nds.append(nds[op[1]])
+    return lines
+
+
+DIRECTED_NAN = [
+    {'family': 'nan', 'specs': [dict(S('c', 'uns', [[0.0, 1.0], [1.0, 2.0]]), nan=[[0, 1]]), dict(S('c', 'uns', [[0.0, 1.0], [1.0, 2.0]]), nan=[])],
+     'ops': [['copy', 0], ['pickle', 0], ['copy', 1], ['dict', 0]]},
+    {'family': 'nan', 'specs': [dict(S('c', 'sep', [[0.0, 1.0, 2.0], [1.0, 2.0]]), nan=[[1, 0]]), dict(S('c', 'sep', [[0.0, 1.0, 2.0], [1.0, 2.0]]), nan=[[1, 0]])],
+     'ops': [['reversed', 0], ['shift', 1, 0.5], ['copy', 1]]},
+    {'family': 'nan', 'specs': [dict(S('c', 'reg', [[1.0, 0.5], [2, 3], [0.0, 0.0]]), nan=[[0, 1]]), dict(S('p', 'reg', [[1.0, 0.5], [2, 3], [0.0, 0.0]]), nan=[[2, 0]]),
+                                dict(S('c', 'reg', [[1.0, 0.5], [2, 3], [0.0, 0.0]]), nan=[])],
+     'ops': [['copy', 0], ['dict', 1], ['shifted', 2, -1.0], ['copy', 2]]},
+]
+
+
 def dis(ctx, stream, detail, key=None):
     ctx.count('disagree:' + stream)
     ctx.disagree(stream, detail, key)
@@ -717,6 +854,26 @@ def run(ctx):
         cases.append((gen_float_case(ctx.rng), 'float-shift'))
     all_lines = []
     plan = []
+    nan_plan = []
+    nan_cases = list(DIRECTED_NAN) + [gen_nan_case(ctx.rng) for _ in range(ctx.scale(250, 2000))]
+    for case in nan_cases:
+        obs = run_nan_real(case)
+        for key, what in nan_oracle(obs):
+            ctx.violation(key, what, case)
+        ctx.count('family:nan')
+        if 'error' in obs:
+            continue
+        n = len(obs['flags'])
+        ctx.count('nan:grids-with-nan', sum(obs['flags']))
+        ctx.count('nan:grids-without-nan', n - sum(obs['flags']))
+        ctx.count('nan:self-comparison-false', sum(1 for i in range(n) if obs['eq'][i][i] is False))
+        ctx.case(None, nontrivial_key=('nan', tuple(o[0] for o in obs['done']), tuple(obs['flags']),
+                                       tuple(sp['kind'] for sp in case['specs'])) if any(obs['flags']) else None)
+        lines = nan_model_lines(case, obs['done'])
+        first = len(lines)
+        lines += ['C10 eqnan %d %d %d %d' % (i, j, obs['flags'][i], obs['flags'][j]) for i in range(n) for j in range(n)]
+        nan_plan.append((case, obs, len(all_lines) + first, n))
+        all_lines += lines
     for case, label in cases:
         steps = check_case(ctx, case, label)
         lines = ['C10 reset']
@@ -753,6 +910,12 @@ def run(ctx):
         all_lines += lines
     out = ctx.model(all_lines)
     inexact = 0
+    for case, obs, first, n in nan_plan:
+        ctx.traces_validated += 1
+        model = [[out[first + i * n + j] for j in range(n)] for i in range(n)]
+        real = [['ok 1' if obs['eq'][i][j] is True else 'ok 0' if obs['eq'][i][j] is False else 'E' for j in range(n)] for i in range(n)]
+        if model != real:
+            dis(ctx, 'C10 eq NaN', {'case': case, 'impl': obs['eq'], 'model': model, 'has-nan': obs['flags']})
     for case, steps, base, marks in plan:
         for st, m in zip(steps, marks):
             op = st['op']
@@ -822,6 +985,11 @@ def run(ctx):
 
 
 def replay(ctx, case):
+    if case.get('family') == 'nan':
+        bad = nan_oracle(run_nan_real(case))
+        for key, what in bad:
+            print('  fails:', key, '-', what)
+        return not bad
     bad = oracle(run_real(case))
     for key, what in bad:
         print('  fails:', key, '-', what)
